@@ -113,6 +113,17 @@ def main(args, tier, seed):
         for n, st, per in results:
             print(f"  {n:40s} {st:10s} alarms: {[p for p, (rc, nv) in per.items() if rc != 0] or 'none'}")
         return 1 if alarms else 0
+    # keep a merged record of the latest outcome per mutant
+    import json
+    rp = os.path.join(VERIF, "mutants", "benign_results.json" if os.environ.get("CV_SELFTEST_BENIGN") else "results.json")
+    try:
+        rec = json.load(open(rp))
+    except Exception:
+        rec = {}
+    for n, st, per in results:
+        rec[n] = {"status": st, "checks": {p: ("caught" if rc == 1 and nv else "silent" if rc == 0 else f"rc{rc}") for p, (rc, nv) in per.items()}}
+    with open(rp, "w") as f:
+        json.dump(rec, f, indent=1, sort_keys=True)
     print("\n== selftest summary ==")
     for n, st, per in results:
         print(f"  {n:45s} {st:10s} " + " ".join(f"{p}:{'caught' if rc == 1 and nv else 'missed' if rc == 0 else 'rc%d' % rc}" for p, (rc, nv) in per.items()))
